@@ -598,6 +598,11 @@ func (c *VirtualTable) Insert(ctx context.Context, values map[int]interface{}) (
 	if ok && (!old.Deleted || !ot.Add(old.DeleteUpdateOffset.AsDuration()).Before(t)) {
 		return 0, ErrS3DBConstraintPrimaryKey
 	}
+	for i := range values {
+		if i != c.KeyCol && values[i] == nil && c.notNull(i) {
+			return 0, ErrS3DBConstraintNotNull
+		}
+	}
 	new.ColumnValues = make(map[string]*v1proto.ColumnValue)
 	for i, v := range values {
 		if i == c.KeyCol {
@@ -613,6 +618,15 @@ func (c *VirtualTable) Insert(ctx context.Context, values map[int]interface{}) (
 		return 0, fmt.Errorf("set: %w", err)
 	}
 	return 0, nil
+}
+
+// notNull reports whether the column at the given SQLite column index was
+// declared NOT NULL.
+func (c *VirtualTable) notNull(i int) bool {
+	if c.usesRowID {
+		i-- // the hidden _rowid_ column comes first
+	}
+	return i >= 0 && i < len(c.schema.Columns) && c.schema.Columns[i].NotNull
 }
 
 func (c *VirtualTable) Update(ctx context.Context, key interface{}, values map[int]interface{}) error {
@@ -638,6 +652,9 @@ func (c *VirtualTable) Update(ctx context.Context, key interface{}, values map[i
 	for i, v := range values {
 		if i == c.KeyCol {
 			continue
+		}
+		if v == nil && c.notNull(i) {
+			return ErrS3DBConstraintNotNull
 		}
 		dbg("SET %d %v=%v\n", i, key, v)
 		colName := c.ColumnNameByIndex[i]
